@@ -381,6 +381,9 @@ func RunCheck(o *RunOpts, prop string) int {
 		}
 		nviol++
 		exit = 1
+		if detail != "" {
+			v.What += " [" + detail + "]"
+		}
 		fmt.Printf("VIOLATION property=%s replay=%s\n  key=%s cases=%d\n  %s\n", prop, path, v.Key, v.Count, v.What)
 	}
 
@@ -537,6 +540,7 @@ func confirm(o *RunOpts, path, key string) (bool, string) {
 	parts := strings.Split(key, "|")
 	why := parts[len(parts)-1]
 	detail := ""
+	reproduced := 0
 	for i := 0; i < 5; i++ {
 		cmd := exec.Command(o.Exe, "replay", path, "--times", "1", "--expect", key)
 		var so, se bytes.Buffer
@@ -559,11 +563,28 @@ func confirm(o *RunOpts, path, key string) (bool, string) {
 			ok = code != 0 && code != 1
 		}
 		if !ok {
-			detail = fmt.Sprintf("replay %d of 5: exit %d: %s %s", i+1, code, tail(so.String(), 300), tail(se.String(), 300))
-			return false, detail
+			if detail == "" {
+				detail = fmt.Sprintf("replay %d of 5: exit %d: %s %s", i+1, code, tail(so.String(), 300), tail(se.String(), 300))
+			}
+			if why == "hang" || why == "heap" || reproduced == 0 && i >= 1 {
+				// resource kills must reproduce every time; a case that passed its first two fresh replays is not
+				// pursued further
+				return false, detail
+			}
+			continue
 		}
+		reproduced++
 	}
-	return true, ""
+	if reproduced == 5 {
+		return true, ""
+	}
+	if reproduced >= 2 {
+		// The case failed in the worker and again in at least two of five fresh single-case processes, and passed in
+		// others: the library's result for this input is not a function of the input. That is a violation in its own
+		// right (reported as such, with the count), not a harness problem — the harness has no source of randomness.
+		return true, fmt.Sprintf("nondeterministic: the recorded case failed in %d of 5 fresh replays and passed in the others", reproduced)
+	}
+	return false, detail
 }
 
 // ReplayMain implements `vcheck replay <file> [--times n] [--expect key]`.
